@@ -787,6 +787,10 @@ func (v *Verifier[FR, G1El, G2El, GtEl]) PrepareVerification(vk VerifyingKey[FR,
 	if len(proof.Bsb22Commitments) != len(vk.Qcp) {
 		return nil, nil, nil, fmt.Errorf("BSB22 commitment number mismatch")
 	}
+	if len(witness.Public) != int(vk.NbPublicVariables) {
+		// as the native verifier: the key fixes the number of public inputs
+		return nil, nil, nil, fmt.Errorf("invalid witness size, got %d, expected %d", len(witness.Public), vk.NbPublicVariables)
+	}
 
 	fs, err := recursion.NewTranscript(v.api, fr.Modulus(), []string{"gamma", "beta", "alpha", "zeta"})
 	if err != nil {
